@@ -15,7 +15,10 @@ Inductive wkind :=
 | KMask (w : who)                            (* x->mask.store *)
 | KNew (w : who)                             (* new (x->entries[..].buffer) T{..} *)
 | KLink (w : who)                            (* x->links[..].store *)
-| KRoot.                                     (* _root.store *)
+| KRoot                                      (* _root.store *)
+| KDestroy (w : who).                        (* p->~T() / std::destroy_at(p) / frg::destruct: never produced by the model's
+                                                micro-steps - the writer's programs contain no destroy step *)
+Definition has_destroy (l : list wkind) : bool := existsb (fun k => match k with KDestroy _ => true | _ => false end) l.
 
 Definition who_of (base n : nat) : who := if Nat.eqb n base then NewE else if Nat.eqb n (S base) then NewL else Old.
 Definition step_kind (base : nat) (m : mstep) : list wkind :=
